@@ -838,6 +838,14 @@ def run(chk):
         pass
     finish_ties(cx)
     chk.cov["implementation_matches"] = {k: sorted(v) for k, v in cx.mode.items()}
+    if not cx.quick:
+        # independent re-check of the compiled proofs and of their axiom list (DESIGN.md 2.2, thorough tier)
+        rc, out = common.sh(["timeout", "3000", "coqchk", "-silent", "-o", "-Q", ".", "QV", "QV.Props.Properties_C14"], cwd=common.COQ)
+        txt = out.decode("utf-8", "replace")
+        ok = rc == 0 and re.search(r"\* Axioms: <none>", txt) is not None
+        chk.cov["coqchk"] = {"exit": rc, "axioms": "none" if ok else txt[-1500:]}
+        if not ok:
+            chk.violation({"kind": "proof-recheck-failed", "checker": "coqchk -o -Q coq QV QV.Props.Properties_C14", "output": txt[-3000:]}, no_input=True)
 
 
 def replay(chk, rep):
